@@ -7,6 +7,24 @@ ROOT = os.path.dirname(os.path.dirname(os.path.abspath(__file__)))
 
 # id -> (technique, level text, level note, design ref)
 CHECKS = {
+    'C01': ('exhaustive operator x operand-type matrix over value pools + Hypothesis typed-expression generation, vs an independent three-valued reference evaluator',
+            'Every operator, implicit cast and total scalar function is evaluated over the full cross product of small '
+            'value pools (NULL, zero, negatives, equal int/decimal values, empty strings, leap days) as target and as '
+            'WHERE condition and compared cell by cell, type-strictly, with a reference evaluator written from the '
+            'property text; random typed expression trees (depth <= 4) over NULL-rich tables add nesting and clause '
+            'interaction. Exhaustive over the pools, sampled beyond them.',
+            'Trusted: vlib/refmodel.py (reference semantics), vlib/bql.py (printer, typing table), CPython arithmetic on '
+            'int/Decimal/date. Cases where the reference arithmetic is undefined are discarded and counted.',
+            'DESIGN.md section 4, C01'),
+    'C06': ('Hypothesis AST generation -> print in canonical and redundant styles -> parse round trip (deep type-strict equality); differential shipped parser vs grammar-compiled parser on valid and mutated texts',
+            'Round trip over generated statement ASTs of all four kinds with every clause, operator nesting pair, literal '
+            'form and identifier spelling, in three printing styles each; plus a differential run of the shipped parser '
+            'against a parser compiled from bql.ebnf at check time on valid, token-mutated and token-soup texts (same AST '
+            'or same rejection position). Sampled, not exhaustive; coverage histogram of parent>child@position pairs '
+            'is reported.',
+            'Trusted: the printer in vlib/bql.py (mirrors the grammar rule by rule), TatSu (used by both parsers). '
+            'Regenerating parser.py from the grammar and comparing bytes is reported as a supplement only.',
+            'DESIGN.md section 4, C06'),
     'C10': ('Hypothesis-generated cursor call histories vs list-and-position model (model-based/stateful PBT)',
             'Bounded random exploration of cursor call histories (result sizes 0..12, <=30 operations, several '
             'cursors per connection) against an executable model of the DB-API protocol; every description entry '
